@@ -332,7 +332,18 @@ func reactionClass(r string) string {
 	if len(out) == 0 {
 		return "none"
 	}
-	return strings.Join(out, "+")
+	// one finding per kind of damage: the first two distinct reactions
+	var uniq []string
+	for _, o := range out {
+		dup := false
+		for _, u := range uniq {
+			dup = dup || u == o
+		}
+		if !dup && len(uniq) < 2 {
+			uniq = append(uniq, o)
+		}
+	}
+	return strings.Join(uniq, "+")
 }
 
 // c01PlanShape names the encoding deviation of a plan.
